@@ -101,6 +101,8 @@ def main(argv=None):
         sys.argv = ['vf.replay', a.replay]
         return replay.main()
     tier = a.tier if a.tier in ('quick', 'thorough') else 'quick'
+    # second back end (cvc5) re-decides this many claim queries per obligation from the SMT-LIB dump of the z3 state
+    os.environ.setdefault('VF_CROSS', '1' if tier == 'quick' else '8')
     try:
         seed = int(os.environ.get('VERIF_SEED', '0'))
     except ValueError:
@@ -182,7 +184,7 @@ def main(argv=None):
     # --- aggregate -------------------------------------------------------------------------
     viols, knowns, errors, inconcl, optional_inc = [], {}, [], [], []
     agg = dict(paths=0, claims=0, structural=0, unsat=0, sat=0, unknown=0, queries=0, decisions=0, solver_s=0.0,
-               aborted=0)
+               aborted=0, cross_checked=0, cross_agree=0, cross_unknown=0, cross_disagree=0, cross_s=0.0)
     clauses = {}
     samples = []
     for r in results:
@@ -193,6 +195,8 @@ def main(argv=None):
         agg['decisions'] += st.get('decisions', 0)
         agg['aborted'] += st.get('aborted', 0)
         agg['solver_s'] += st.get('solver_s', 0.0)
+        for k in ('cross_checked', 'cross_agree', 'cross_unknown', 'cross_disagree', 'cross_s'):
+            agg[k] += st.get(k, 0)
         for c, (n, d) in r['clauses'].items():
             cc = clauses.setdefault(c, [0, 0])
             cc[0] += n
@@ -274,6 +278,11 @@ def main(argv=None):
             'configurations': len(results), 'paths': agg['paths'], 'infeasible_or_pruned_paths': agg['aborted'],
             'queries': agg['queries'], 'unsat': agg['unsat'], 'sat': agg['sat'], 'unknown': agg['unknown'],
             'structural_identities': agg['structural'], 'solver_s': round(agg['solver_s'], 2),
+            'second_solver': {'solver': 'cvc5 (Python API) on the SMT-LIB 2 dump of the z3 solver state',
+                              'queries_rechecked': agg['cross_checked'], 'agree': agg['cross_agree'],
+                              'cvc5_unknown_or_timeout': agg['cross_unknown'], 'disagree': agg['cross_disagree'],
+                              'solver_s': round(agg['cross_s'], 2),
+                              'per_obligation_budget': int(os.environ.get('VF_CROSS', '0') or 0)},
             'inconclusive_obligations': [r['scenario'] + ' ' + json.dumps(r['params'], sort_keys=True)
                                          for r in inconcl + optional_inc],
             'harness_errors': len(errors),
